@@ -111,3 +111,11 @@ func verifSignedBy(el *etree.Element, kind int, id int) bool {
 	_, err = vc.Validate(doc2.Root())
 	return err == nil
 }
+
+func verifParseAssertionBytes(b []byte) *etree.Element {
+	doc := etree.NewDocument()
+	if err := doc.ReadFromBytes(b); err != nil {
+		return nil
+	}
+	return doc.Root()
+}
